@@ -37,6 +37,25 @@ def evaluate(ctx, body, e, env, counter, slots_field, params=None, depth=0):
             # incoming - outgoing of an ordered collection = running + parked (C04 R4.1-R4.3, linked by the caller)
             ctx._window_form_used = True
             return env["r"] + env["p"]
+    if k == "multi":
+        # a guard kept in a local (`let mut has_room = q.has_room(); while has_room { .. has_room = q.admit(x) }`): every
+        # definition must be the same function of the queue's state (the caller checks that nothing changes the queue between a
+        # definition and the test)
+        fl = ctx.flow(body)
+        vals = []
+        for (bb, idx, kind, node) in fl.defs.get(e[1], []):
+            if kind == "assign":
+                de = fl.rvalue_expr(node["rv"], bb)
+            elif kind == "call":
+                de = fl.call_expr(node, bb)
+            else:
+                raise Unknown("partially assigned guard variable")
+            if de[0] == "multi" and de[1] == e[1]:
+                continue
+            vals.append(evaluate(ctx, body, de, env, counter, slots_field, params, depth + 1))
+        if vals and all(v == vals[0] and isinstance(v, bool) == isinstance(vals[0], bool) for v in vals):
+            return vals[0]
+        raise Unknown("multi")
     if k == "const":
         t = e[2]
         if t in ("0", "1") and e[1] == "bool":
